@@ -5,6 +5,7 @@ output line.  Strings travel as comma-separated hexadecimal code points, `-` for
 -/
 import AioMySensors.Model.Codec
 import AioMySensors.Model.Version
+import AioMySensors.Model.Handlers
 
 open AioMySensors
 
@@ -44,7 +45,51 @@ def parseMsg : List String → Option Msg
   | _ => none
 
 structure DState where
-  dummy : Unit := ()
+  gw : St := {}
+  env : Env := {}
+
+def showBool (b : Bool) : String := if b then "1" else "0"
+
+def showExn : Exn → String
+  | .lib .invalidMessage => "err invalidMessage"
+  | .lib (.missingNode n) => s!"err missingNode {n}"
+  | .lib (.missingChild c) => s!"err missingChild {c}"
+  | .lib .tooManyNodes => "err tooManyNodes"
+  | .lib .unsupported => "err unsupported"
+  | .lib .transportFailed => "err transportFailed"
+  | .foreign c => s!"foreign {repr c}".replace "AioMySensors.PyExn." ""
+
+def showWrites (ws : List WriteEvt) : String :=
+  " W" ++ String.join (ws.map fun w => s!" {encodeStr w.line}:{showBool w.ok}")
+
+def showValues (vs : PDict Int Str) : String :=
+  "{" ++ ",".intercalate (vs.map fun (t, v) => s!"{t}={encodeStr v}") ++ "}"
+
+def showChild (k : Int) (c : Child) : String :=
+  s!"{k}/{c.cid}/{c.ctype}/{encodeStr c.desc}/{showValues c.values}"
+
+def showNode (k : Int) (n : Node) : String :=
+  s!"{k}:{n.ntype}:{encodeStr n.pv}:{encodeStr n.sketchName}:{encodeStr n.sketchVersion}:{n.battery}:{n.heartbeat}:" ++
+  s!"{showBool n.reboot}:{showBool n.sleeping}:[" ++ ";".intercalate (n.children.map fun (k, c) => showChild k c) ++ "]"
+
+def showKey (k : Key) : String := s!"{k.1}.{k.2.1}.{k.2.2}"
+
+def showSt (s : St) : String :=
+  let pv := match s.pv with | some p => "pv=" ++ encodeStr p | none => "pv=none"
+  s!"{pv} proto={verStr s.proto} nodes=[" ++ "|".intercalate (s.nodes.map fun (k, n) => showNode k n) ++ "] ibuf=[" ++
+  " ".intercalate (s.ibuf.map fun (k, _) => showKey k) ++ "] sbuf=[" ++
+  " ".intercalate (s.sbuf.map fun (k, m) => showKey k ++ "=" ++ encodeStr m.payload) ++ "]"
+
+def parseFaults (s : String) : Option (List Bool) :=
+  if s = "-" then some [] else s.toList.mapM fun c => if c = '1' then some true else if c = '0' then some false else none
+
+def parseBool : String → Option Bool
+  | "1" => some true | "0" => some false | _ => none
+
+def runM {α : Type} (st : DState) (faults : List Bool) (x : M α) (showA : α → String) : DState × String :=
+  match x { st := st.gw, faults := faults } with
+  | (.ok a, w) => ({ st with gw := w.st }, showA a ++ showWrites w.writes)
+  | (.error e, w) => ({ st with gw := w.st }, showExn e ++ showWrites w.writes)
 
 def step (st : DState) (line : String) : DState × String :=
   match (line.trimAscii.toString.splitOn " ").filter (· ≠ "") with
@@ -67,6 +112,56 @@ def step (st : DState) (line : String) : DState × String :=
     match decodeStr s with
     | some s => (st, match getProtocol? s with | some v => "ok " ++ verStr v | none => "rejected")
     | none => (st, "bad-op")
+  | ["flt", s] =>
+    match decodeStr s with
+    | some s => (st, match pyRoundFloat s with | .ok n => s!"ok {n}" | .error c => s!"{repr c}".replace "AioMySensors.PyExn." "")
+    | none => (st, "bad-op")
+  | ["gnew", v, metric] =>
+    match parseBool metric with
+    | none => (st, "bad-op")
+    | some mt =>
+      if v = "-" then ({ st with gw := {}, env := { st.env with metric := mt } }, "ok")
+      else match decodeStr v with
+        | none => (st, "bad-op")
+        | some vs => match getProtocol? vs with
+          | some ver => ({ st with gw := { pv := some vs, proto := ver }, env := { st.env with metric := mt } }, "ok")
+          | none => (st, "bad-op")
+  | ["gnode", id, ntype, pv, sn, sv, bat, hb, reboot, sleeping] =>
+    (do
+      let id ← id.toInt?; let ntype ← ntype.toInt?; let pv ← decodeStr pv; let sn ← decodeStr sn
+      let sv ← decodeStr sv; let bat ← bat.toInt?; let hb ← hb.toInt?
+      let rb ← parseBool reboot; let sl ← parseBool sleeping
+      let node : Node := { ntype := ntype, pv := pv, sketchName := sn, sketchVersion := sv, battery := bat,
+                           heartbeat := hb, reboot := rb, sleeping := sl }
+      pure ({ st with gw := { st.gw with nodes := st.gw.nodes.set id node } }, "ok")).getD (st, "bad-op")
+  | ["gchild", node, key, cid, ctype, desc] =>
+    (do
+      let nid ← node.toInt?; let key ← key.toInt?; let cid ← cid.toInt?; let ctype ← ctype.toInt?
+      let desc ← decodeStr desc
+      let n ← st.gw.nodes.get? nid
+      let n' := { n with children := n.children.set key ⟨cid, ctype, desc, []⟩ }
+      pure ({ st with gw := { st.gw with nodes := st.gw.nodes.set nid n' } }, "ok")).getD (st, "bad-op")
+  | ["gval", node, key, t, v] =>
+    (do
+      let nid ← node.toInt?; let key ← key.toInt?; let t ← t.toInt?; let v ← decodeStr v
+      let n ← st.gw.nodes.get? nid
+      let c ← n.children.get? key
+      let n' := { n with children := n.children.set key { c with values := c.values.set t v } }
+      pure ({ st with gw := { st.gw with nodes := st.gw.nodes.set nid n' } }, "ok")).getD (st, "bad-op")
+  | ["grecv", line, faults, y, mo, d, h, mi, sec] =>
+    (do
+      let line ← decodeStr line; let faults ← parseFaults faults
+      let y ← y.toNat?; let mo ← mo.toNat?; let d ← d.toNat?; let h ← h.toNat?; let mi ← mi.toNat?; let sec ← sec.toNat?
+      let env := { st.env with year := y, month := mo, day := d, hour := h, minute := mi, second := sec }
+      pure (runM st faults (recv env line) fun m => "ok " ++ showMsg m)).getD (st, "bad-op")
+  | "gsend" :: buffer :: faults :: rest =>
+    (do
+      let buffer ← parseBool buffer; let faults ← parseFaults faults
+      let obj ← match rest with
+        | ["notmsg"] => some none
+        | _ => (parseMsg rest).map some
+      pure (runM st faults (apiSend obj buffer) fun _ => "ok")).getD (st, "bad-op")
+  | ["gdump"] => (st, showSt st.gw)
   | _ => (st, "bad-op")
 
 partial def loop (h : IO.FS.Stream) (out : IO.FS.Stream) (st : DState) : IO Unit := do
